@@ -28,6 +28,20 @@ def items(node, out):
     for c in node.getChildren():
         items(c, out)
 
+def hx(t):
+    return t.encode("latin-1", "replace").hex()
+
+def ptree(node):
+    """structure of begin / branch nodes for the walker model: B<n>; kids | R / C / T leaves"""
+    if isinstance(node, TerminalNode):
+        return "T" + hx(str(node)) + ";"
+    if isinstance(node, GlycanParser.DerivContext):
+        return "R" + hx(text(node)) + ";"
+    if isinstance(node, GlycanParser.ConContext):
+        return "C" + hx(text(node)) + ";"
+    kids = list(node.getChildren())
+    return "B%d;" % len(kids) + "".join(ptree(k) for k in kids)
+
 payload = json.load(sys.stdin)
 out = []
 for s in payload["items"]:
@@ -42,6 +56,10 @@ for s in payload["items"]:
             it = []
             items(g.grammar_tree, it)
             rec["items"] = it
+            begins = [c for c in g.grammar_tree.getChildren() if isinstance(c, GlycanParser.BeginContext)]
+            others = [c for c in g.grammar_tree.getChildren() if isinstance(c, GlycanParser.BranchContext)]
+            if len(begins) == 1 and not others:
+                rec["ptree"] = ptree(begins[0])
             rec["tree_full"] = bool(g.tree_full)
     except Exception as e:
         rec["exc"] = type(e).__name__ + ": " + str(e)[:200]
